@@ -245,7 +245,7 @@ def write_workspace(ws_dir, crates):
         os.makedirs(d)
         with open(os.path.join(ws_dir, cname, "Cargo.toml"), "w") as f:
             f.write(CARGO_TOML.format(name=cname, repo=REPO, verif=VERIF))
-        lines = ["#![allow(clippy::all)]", "#[allow(unused_imports)]", "use join::*;",
+        lines = ["#![allow(clippy::all)]", '#![recursion_limit = "1024"]', "#[allow(unused_imports)]", "use join::*;",
                  "#[allow(unused_imports)]", "use rt::Dot;", "use serde_json::Value;", ""]
         sp = {}
         for fn, P in progs:
